@@ -1,0 +1,32 @@
+//go:build verif
+
+// Add-only hook for the /verif check of property C07: newton_min with getPhi == nil
+// (its own back-tracking loop instead of lineSearch.Run).  The public driver RunMin
+// always passes a getPhi closure, so this branch of newton_min is otherwise only
+// reachable from inside the package.  Same AD glue as RunMin.
+package newton
+
+import . "github.com/pbenner/autodiff"
+
+func VerifC07RunMinBacktrack(f_ func(ConstVector) (MagicScalar, error), x ConstVector, args ...interface{}) (Vector, error) {
+  n := x.Dim()
+  y := NullFloat64()
+  g := NullDenseFloat64Vector(n)
+  H := NullDenseFloat64Matrix(n, n)
+  X := AsDenseReal64Vector(x)
+  f := func(x ConstVector) (Scalar, Vector, Matrix, error) {
+    X.Set(x)
+    if err := X.Variables(2); err != nil {
+      return nil, nil, nil, err
+    }
+    Y, err := f_(X)
+    if err != nil {
+      return nil, nil, nil, err
+    }
+    y.SetFloat64(Y.GetFloat64())
+    CopyGradient(g, Y)
+    CopyHessian (H, Y)
+    return y, g, H, nil
+  }
+  return run_min(f, x, nil, args...)
+}
